@@ -166,6 +166,10 @@ def entries():
     add("symbols", lambda r: [gen.choice(r, ["q0", "q0:3", "q1,q3", "q2 q10"])], lambda s: numpoly.symbols(s), "construct")
     add("monomial", lambda r: [int(r.integers(0, 2)), int(r.integers(1, 4)), int(r.integers(1, 3))],
         lambda a, b, d: numpoly.monomial(a, a + b, dimensions=d), "construct")
+    # per-axis bounds with a single name: the name is extended with an index, one per axis (D64: the result had one name
+    # for exponent rows of width two)
+    add("monomial(per-axis bounds, one name)", lambda r: [[int(r.integers(1, 3)), int(r.integers(1, 4))], gen.choice(r, ["q5", "q1"])],
+        lambda stop, name: numpoly.monomial(stop, dimensions=name), "construct")
     add("full_like", lambda r: [P(r), P(r, shape=())], lambda a, f: numpoly.full_like(a, f), "construct")
     add("zeros_like", lambda r: [P(r)], lambda a: numpoly.zeros_like(a), "construct")
     add("ones_like", lambda r: [P(r)], lambda a: numpoly.ones_like(a), "construct")
